@@ -377,7 +377,11 @@ func c14ErrorPaths(c *Case) {
 		{"malformed input after a value", []string{"--", "{ print $ }"}, []byte("[1] [2"), false, "1\n"},
 	}
 	for _, e := range cases {
-		r := RunCli(c.env.Jqawk, e.args, e.stdin, dir, 30*time.Second)
+		r := RunCli(c.env.Jqawk, e.args, e.stdin, dir, 120*time.Second)
+		if r.TimedOut {
+			c.Inconclusive("binary-watchdog")
+			continue
+		}
 		c.NonTrivial("errpath:" + e.name)
 		c.Count("error_paths")
 		rp := map[string]any{"args": e.args, "stdout": string(r.Stdout), "stderr": string(r.Stderr), "exit": r.Exit}
